@@ -36,7 +36,7 @@ define('IntCompiled(self)',
        " and implies(is_prim(self.byte_count),"
        "       self.struct_obj.size == self.byte_count and self.struct_obj.big == self.is_bigendian"
        "       and self.struct_obj.signed == self.is_signed"
-       "       and self.struct_code == struct_code_of(self.byte_count, self.is_signed)"
+       "       and same(self.struct_code, struct_code_of(self.byte_count, self.is_signed))"
        "       and self.pack == 'field:Int._pack_fixed_and_primitive_size'"
        "       and self.unpack == 'field:Int._unpack_fixed_and_primitive_size')"
        " and implies(not is_prim(self.byte_count),"
@@ -229,6 +229,9 @@ add(Contract(
         "                                   rx_start(self.until_marker, %(b)s)))" % dict(b=_RB),
         # the match lies inside the window and inside the input
         "implies(rx_pattern(self.until_marker) != b'$', rx_end(self.until_marker, %(b)s) <= len(%(b)s))" % dict(b=_RB),
+        # the field object is written only when the matched delimiter is not part of the value (finding K13a)
+        "implies(self.include_delimiter or rx_pattern(self.until_marker) == b'$',"
+        "        self.delimiter_to_be_included == old(self.delimiter_to_be_included))",
         "implies(rx_pattern(self.until_marker) != b'$' and rx_end(self.until_marker, %(b)s) > 0,"
         "        offset + rx_end(self.until_marker, %(b)s) <= win_hi(self, raw, offset))" % dict(b=_RB),
     ],
@@ -383,6 +386,7 @@ add(Contract(
         "        and intval(slot(pkt, self.I.field_name)) == val(raw[offset:offset + self.I.byte_count], True, False))",
         "implies(not self.iam_first, result == offset"
         "        and same(slot(pkt, self.I.field_name), old(slot(pkt, self.I.field_name))))",
+        "hasslot(pkt, self.I.field_name) and isint(slot(pkt, self.I.field_name))",
         # every member gets (I & mask) >> shift - by lemma C07.unpack_slice exactly its own bit slice
         "hasslot(pkt, self.field_name) and isint(slot(pkt, self.field_name))",
         "intval(slot(pkt, self.field_name)) =="
